@@ -379,7 +379,7 @@ def _small_states(tier):
     if tier == 'quick':
         more = [((2, 3), 11), ((3, 2), 11)]
     else:
-        more = [((1, 3), 1), ((3, 1), 1), ((2, 3), 3), ((3, 2), 3), ((3, 3), 20)]
+        more = [((1, 3), 1), ((3, 1), 1), ((2, 3), 5), ((3, 2), 5), ((3, 3), 40)]
     k = 0
     for shape, step in more:
         for dm in rt.matrices(0, 0, shapes=[shape]):
@@ -574,7 +574,7 @@ def run(rep):
         nrand = 1000 if q else 40000
         small = ('every matrix over {0,1,2} up to 2x2 x every layout x stored zeros (none/one/all)%s'
                  % (' (2x2: 3 of the 9 layout/zero combinations, rotating) + every 11th 2x3/3x2 matrix' if q else
-                    ' + all 1x3, 3x1, every 3rd 2x3 / 3x2 and every 20th 3x3 matrix in one rotating layout'))
+                    ' + all 1x3, 3x1, every 5th 2x3 / 3x2 and every 40th 3x3 matrix in one rotating layout'))
         big = ('5 fixed matrices (zero row/column, dyadic, negative/cancelling, dense, almost empty) x layouts x stored '
                'zeros x %s' % ('metadata kind, ID alphabet and history rotating' if q else
                                '4 metadata kinds x 5 histories, ID alphabets rotating'))
